@@ -14,12 +14,16 @@ structure Verdict where
   specImpl   : Bool            -- decidable spec on the implementation's answer (false if it crashed / is malformed)
   nontrivial : Bool            -- non-trivial by the property's stated rule
   notes      : List String := []   -- which clause failed, which branches were hit (input distribution)
+  implView   : Option Json := none -- when set: the projection of the implementation's answer that is compared
+                                   -- with `model` (instead of the whole answer)
 
 def Verdict.toJson (id : Nat) (v : Verdict) : Json :=
-  Json.mkObj [("id", id), ("model", v.model), ("specModel", v.specModel), ("specImpl", v.specImpl),
-              ("nontrivial", v.nontrivial), ("notes", Json.arr (v.notes.map Json.str).toArray)]
+  let base : List (String × Json) := [("id", (id : Json)), ("model", v.model), ("specModel", (v.specModel : Json)),
+              ("specImpl", (v.specImpl : Json)), ("nontrivial", (v.nontrivial : Json)),
+              ("notes", Json.arr (v.notes.map Json.str).toArray)]
+  Json.mkObj (base ++ (match v.implView with | some j => [("implView", j)] | none => []))
 
-abbrev Handler := (input : Json) → (implOut : Option Json) → Except String Verdict
+abbrev Handler := (prop : String) → (input : Json) → (implOut : Option Json) → Except String Verdict
 
 def jstr (j : Json) (k : String) : Except String String := do (← j.getObjVal? k).getStr?
 def jnat (j : Json) (k : String) : Except String Nat := do (← j.getObjVal? k).getNat?
